@@ -49,6 +49,14 @@ def jobs(tier):
                        require=[r"variance of an equation's residual is taken from that equation's own measurement"],
                        bound="%s 2x2, short@1, open@2, through; concrete distinct measurements, nf = tr = 1; numeric tail (chisq_pvalue) cut" % t,
                        timeout=300, cbmc_flags=["--no-leak"]))
+    for t in (["VNACAL_TE10"] if tier == "quick" else ["VNACAL_TE10", "VNACAL_UE10", "VNACAL_UE14"]):
+        d = C20.CUT + ["-DCAL_TYPE=%s" % t, "-DH_PVALUE", "-DPVALUE_LEAKAGE", "-DVERIF_CUT_pvalue_before_chisq=__CPROVER_assume(0)"]
+        J.append(V.Job("pvalue_leakage.%s" % t[7:], H, "h_pvalue_variance", srcs, defines=d, unwind=16, union_struct=True,
+                       kind="bounded", canary=False,
+                       functions=["_vnacal_new_solve_calc_pvalue (leakage contribution; the library's own assertions)"],
+                       require=[r"assertion chisq >= 0", r"variance estimate of a leakage term is never negative"],
+                       bound="%s 2x2, same history; one leakage cell's accumulated sum, sum of squares and count symbolic (bounded, NOT assumed consistent in exact arithmetic)" % t,
+                       timeout=600, cbmc_flags=["--no-leak"]))
     for j in C10.jobs("quick"):
         if j.name in ("range.m_error", "spline.knots.n1", "spline.knots.n2", "spline.linear"):
             j.name = "noise_grid." + j.name      # clause: noise vectors on their own grid pass through the given points
